@@ -118,14 +118,12 @@ def write_refusal(ctx, case, cfgd, cfg, T, rng):
         t = f["t"]
         if t["k"] != "array" or t["len"]["f"] != "fixed" or t["elem"]["k"] in ("char", "wchar"):
             continue
-        if model.size_of(t, cfg) is None:
-            continue
         try:
             v = model.random_value(top, rng, cfg)
         except model.ModelUnsupported:
             return
         n = t["len"]["n"]
-        extra = model.random_value(t["elem"], rng, cfg)
+        extra = model.random_value(t["elem"], rng, cfg, v)
         wrong = v[f["name"]] + [extra] if rng.random() < 0.5 or n == 0 else v[f["name"]][:-1]
         v[f["name"]] = wrong
         ctx.evaluation((case["text"], tuple(sorted(cfgd.items())), "refusal", len(wrong)))
@@ -305,6 +303,9 @@ def shadowing(ctx):
             ("#define n 3\nstruct T { uint8 n; uint8 a[n]; uint8 t; };", bytes([1, 9, 8, 7, 6]), ([9], 8)),
             ("#define n 3\nstruct T { uint8 n; uint8 a[n + 1]; uint8 t; };", bytes([1, 9, 8, 7, 6, 5]), ([9, 8], 7)),
             ("#define k 2\nstruct T { uint8 n; uint8 a[n + k]; uint8 t; };", bytes([1, 9, 8, 7, 6, 5]), ([9, 8, 7], 6)),
+            # the operand of sizeof() names a type even if a preceding field has the same name (static size kept)
+            ("struct n { uint8 q; uint8 r; };\nstruct T { n n; uint8 a[sizeof(n)]; uint8 t; };", bytes([1, 2, 9, 8, 7]),
+             ([9, 8], 7)),
         ]:
             ctx.evaluation(("shadow", text, compiled))
             ctx.cell("shadowing")
@@ -312,6 +313,8 @@ def shadowing(ctx):
                 cs = lib.load(text, compiled=compiled)
                 o = cs.T(data)
                 got = ([int(x) for x in o.a], int(o.t))
+                if "sizeof(n)" in text and cs.T.size != 5:
+                    got = f"static size lost: {cs.T.size}"
             except Exception as e:  # noqa: BLE001
                 got = lib.exc_sig(e)
             if got != want:
